@@ -1,2 +1,314 @@
-// Package c13: (not built yet)
+// Package c13: values survive their stored text and JSON forms.
+//
+// The check enumerates, exhaustively within stated grids, (1) decimals, (2) instants x value zone x
+// environment, (3) calendar dates and times of day x environment, (4) JSON documents over a leaf/key
+// alphabet, and (5) pairs of values for the '=' operator, and runs every case through the real
+// render -> parse (or parse_json -> json) round trip of goflow. The oracle is written against the
+// property statement only:
+//
+//   - number:   ToXNumber(ToXText(n)) is the same decimal as n (compared with big.Int arithmetic,
+//     not with goflow's Equals); the contact-field parser (flows.FieldValues.Parse) reads the same
+//     number from the same text.
+//   - datetime: ToXDateTime(env, text) is the same instant as the original *truncated to what the text
+//     shows*: microseconds for the ISO form (Render), minutes or seconds for the environment format
+//     (Format(env)), the truncation being done on the wall clock of the zone the text was written in.
+//     Instants whose year is outside 1..9999 in the value zone or the environment zone are outside the
+//     statement's quantifier and are skipped (counted).
+//   - date / time: likewise for XDate and XTime (ISO form and environment date resp. time format).
+//   - JSON: json(parse_json(doc)) decodes (encoding/json, UseNumber) to the same tree as doc, where
+//     objects are compared as key -> value maps in which the LAST duplicate key wins (ECMA-262
+//     JSON.parse / encoding/json semantics; RFC 8259 leaves duplicates open, every mainstream reader
+//     keeps the last), keys differing only in case are different keys, numbers are compared as
+//     decimals (so 1E+2 == 100, 0.10 == 0.1, -0 == 0), strings as sequences of code points after
+//     unescaping, a lone surrogate escape being read as U+FFFD (what encoding/json and every
+//     UTF-8-based reader makes of it).
+//   - '=':      operators.Equal(a, b) is true exactly when the canonical renderings (Render) of a and b
+//     are the same text; a value equals its own rendering as text and the value parsed back from it;
+//     for numbers the rendering is canonical: two decimals render to the same text exactly when they
+//     are the same number.
 package c13
+
+import (
+	"encoding/json"
+	"fmt"
+	"sort"
+	"strings"
+	"time"
+
+	"github.com/nyaruka/gocommon/dates"
+	"github.com/nyaruka/goflow/envs"
+	"verif/mc"
+)
+
+// the clock goflow's date parser consults (two-digit-year pivot, time fill) is owned by the check
+var fixedNow = time.Date(2026, 6, 15, 12, 30, 45, 123456789, time.UTC)
+
+type problem struct{ key, what string }
+
+// envSpec is one environment configuration: date format x time format x timezone.
+type envSpec struct {
+	df    envs.DateFormat
+	tf    envs.TimeFormat
+	tzn   string
+	tz    *time.Location
+	env   envs.Environment
+	label string
+	unit  time.Duration // precision the time format renders
+	h12   bool
+	first bool // first date/time format combination (used to count ISO cases honestly)
+	// names of the "round trip succeeded" coverage facts
+	fDtIso, fDtEnv, fDateIso, fDateEnv, fTimeIso, fTimeEnv string
+}
+
+var dateFormats = []envs.DateFormat{envs.DateFormatYearMonthDay, envs.DateFormatMonthDayYear, envs.DateFormatDayMonthYear}
+var timeFormats = []envs.TimeFormat{envs.TimeFormatHourMinute, envs.TimeFormatHourMinuteAmPm, envs.TimeFormatHourMinuteSecond, envs.TimeFormatHourMinuteSecondAmPm}
+
+var quickZones = []string{"UTC", "America/New_York", "Asia/Kathmandu", "Africa/Kigali", "Pacific/Apia", "America/Sao_Paulo"}
+var thoroughZones = []string{"UTC", "America/New_York", "Asia/Kathmandu", "Africa/Kigali", "Pacific/Apia", "America/Sao_Paulo", "Australia/Lord_Howe"}
+
+func zonesOf(tier string) []string {
+	if tier == "thorough" {
+		return thoroughZones
+	}
+	return quickZones
+}
+
+var zoneCache = map[string]*time.Location{}
+
+func zone(name string) *time.Location {
+	if z := zoneCache[name]; z != nil {
+		return z
+	}
+	z, err := time.LoadLocation(name)
+	if err != nil {
+		panic("c13: timezone database lacks " + name + ": " + err.Error())
+	}
+	zoneCache[name] = z
+	return z
+}
+
+var envCache = map[string]*envSpec{}
+
+func newEnvSpec(df envs.DateFormat, tf envs.TimeFormat, tzn string) *envSpec {
+	label := string(df) + "|" + string(tf) + "|" + tzn
+	if e := envCache[label]; e != nil {
+		return e
+	}
+	tz := zone(tzn)
+	e := &envSpec{df: df, tf: tf, tzn: tzn, tz: tz, label: label,
+		env: envs.NewBuilder().WithDateFormat(df).WithTimeFormat(tf).WithTimezone(tz).Build()}
+	e.unit = time.Minute
+	if strings.Contains(string(tf), "ss") {
+		e.unit = time.Second
+	}
+	e.h12 = strings.Contains(string(tf), "aa")
+	e.first = df == dateFormats[0] && tf == timeFormats[0]
+	e.fDtIso, e.fDtEnv = "roundtrip-ok:datetime-iso:"+label, "roundtrip-ok:datetime-env:"+label
+	e.fDateIso, e.fDateEnv = "roundtrip-ok:date-iso:"+label, "roundtrip-ok:date-env:"+label
+	e.fTimeIso, e.fTimeEnv = "roundtrip-ok:time-iso:"+label, "roundtrip-ok:time-env:"+label
+	envCache[label] = e
+	return e
+}
+
+// envsFor returns the 12 date x time format environments of one zone.
+func envsFor(tzn string) []*envSpec {
+	var out []*envSpec
+	for _, df := range dateFormats {
+		for _, tf := range timeFormats {
+			out = append(out, newEnvSpec(df, tf, tzn))
+		}
+	}
+	return out
+}
+
+// replay is the artefact from which one case is re-executed.
+type replay struct {
+	Kind   string `json:"kind"` // number | number-pair | datetime | datetime-pair | date | time | json | json-pair
+	Form   string `json:"form,omitempty"`
+	DF     string `json:"date_format,omitempty"`
+	TF     string `json:"time_format,omitempty"`
+	TZ     string `json:"timezone,omitempty"`
+	Coef   string `json:"coef,omitempty"`
+	Exp    int32  `json:"exp,omitempty"`
+	Coef2  string `json:"coef2,omitempty"`
+	Exp2   int32  `json:"exp2,omitempty"`
+	Unix   int64  `json:"unix,omitempty"`
+	Nanos  int    `json:"nanos,omitempty"`
+	VZone  string `json:"value_zone,omitempty"`
+	Unix2  int64  `json:"unix2,omitempty"`
+	Nanos2 int    `json:"nanos2,omitempty"`
+	VZone2 string `json:"value_zone2,omitempty"`
+	Date   []int  `json:"date,omitempty"`
+	Time   []int  `json:"time,omitempty"`
+	Doc    string `json:"doc,omitempty"`
+	Doc2   string `json:"doc2,omitempty"`
+}
+
+func (es *envSpec) fill(rp replay) replay {
+	rp.DF, rp.TF, rp.TZ = string(es.df), string(es.tf), es.tzn
+	return rp
+}
+
+func report(c *mc.Ctx, ps []problem, rp replay) {
+	for _, p := range ps {
+		c.Violation(p.key, p.what+"\ncase: "+mc.JSON(rp), rp)
+	}
+}
+
+// units hands out work-unit numbers; a worker executes the units that are its own.
+type units struct {
+	c *mc.Ctx
+	n int
+}
+
+func (u *units) mine() bool {
+	m := u.c.Mine(u.n)
+	u.n++
+	return m
+}
+
+func run(c *mc.Ctx) {
+	dates.SetNowFunc(dates.NewFixedNow(fixedNow))
+	u := &units{c: c}
+	runNumbers(c, u)
+	runNumberPairs(c, u)
+	runDateTimes(c, u)
+	runDateTimePairs(c, u)
+	runDates(c, u)
+	runTimes(c, u)
+	runJSON(c, u)
+	runJSONPairs(c, u)
+	c.Max("work_units", int64(u.n))
+}
+
+func expired(c *mc.Ctx, part string) bool {
+	if c.Expired() {
+		c.Cap("time budget reached in part '" + part + "'; parts run in the fixed order numbers, number pairs, datetimes, datetime pairs, dates, times, JSON, JSON pairs and every work unit before the cap was enumerated completely")
+		return true
+	}
+	return false
+}
+
+func replayFn(c *mc.Ctx, raw json.RawMessage) (string, bool) {
+	dates.SetNowFunc(dates.NewFixedNow(fixedNow))
+	var rp replay
+	if err := json.Unmarshal(raw, &rp); err != nil {
+		return "bad replay: " + err.Error(), false
+	}
+	var es *envSpec
+	if rp.TZ != "" {
+		es = newEnvSpec(envs.DateFormat(rp.DF), envs.TimeFormat(rp.TF), rp.TZ)
+	} else {
+		es = newEnvSpec(dateFormats[0], timeFormats[0], "UTC")
+	}
+	var ps []problem
+	var outcome string
+	switch rp.Kind {
+	case "number":
+		outcome, ps = evalNumber(c, es, mustBig(rp.Coef), rp.Exp)
+	case "number-pair":
+		outcome, ps = evalNumberPair(c, es, mustBig(rp.Coef), rp.Exp, mustBig(rp.Coef2), rp.Exp2)
+	case "datetime":
+		t := time.Unix(rp.Unix, int64(rp.Nanos)).In(zone(rp.VZone))
+		outcome, ps = evalDateTime(c, es, t, rp.Form, nil)
+	case "datetime-pair":
+		a := time.Unix(rp.Unix, int64(rp.Nanos)).In(zone(rp.VZone))
+		b := time.Unix(rp.Unix2, int64(rp.Nanos2)).In(zone(rp.VZone2))
+		outcome, ps = evalDateTimePair(c, es, a, b)
+	case "date":
+		outcome, ps = evalDate(c, es, dates.NewDate(rp.Date[0], rp.Date[1], rp.Date[2]), rp.Form)
+	case "time":
+		outcome, ps = evalTime(c, es, dates.NewTimeOfDay(rp.Time[0], rp.Time[1], rp.Time[2], rp.Time[3]), rp.Form)
+	case "json":
+		outcome, ps = evalJSON(c, es, rp.Doc, nil)
+	case "json-pair":
+		outcome, ps = evalJSONPair(c, es, rp.Doc, rp.Doc2)
+	default:
+		return "unknown replay kind " + rp.Kind, false
+	}
+	var sb strings.Builder
+	fmt.Fprintf(&sb, "case: %s\noutcome: %s\n", mc.JSON(rp), outcome)
+	for _, p := range ps {
+		fmt.Fprintf(&sb, "PROBLEM %s: %s\n", p.key, p.what)
+	}
+	return sb.String(), len(ps) > 0
+}
+
+func guards(r *mc.Result, tier string) []string {
+	var f []string
+	need := func(fact string) {
+		if r.Facts[fact] == 0 {
+			f = append(f, "never observed: "+fact)
+		}
+	}
+	// each format x zone exercised, for every value kind, with a successful round trip
+	for _, z := range zonesOf(tier) {
+		for _, df := range dateFormats {
+			for _, tf := range timeFormats {
+				l := string(df) + "|" + string(tf) + "|" + z
+				need("roundtrip-ok:datetime-iso:" + l)
+				need("roundtrip-ok:datetime-env:" + l)
+				need("roundtrip-ok:date-iso:" + l)
+				need("roundtrip-ok:date-env:" + l)
+				need("roundtrip-ok:time-iso:" + l)
+				need("roundtrip-ok:time-env:" + l)
+			}
+		}
+	}
+	for _, z := range []string{"America/New_York", "Pacific/Apia"} {
+		need("fold-first-occurrence:" + z)
+		need("fold-second-occurrence:" + z)
+		need("gap-last-instant-before:" + z)
+		need("gap-first-instant-after:" + z)
+	}
+	for _, x := range []string{"rendered-12am", "rendered-12pm", "rendered-noon-24h", "rendered-midnight-24h", "year-below-1000", "year-9999",
+		"value-zone-offset-with-seconds", "sub-microsecond-nanos", "day-could-be-month", "day-cannot-be-month", "feb-29",
+		"number:integer", "number:fraction", "number:negative", "number:zero-with-scale", "number:leading-zero-fraction", "number:integer-trailing-zeros",
+		"number:beyond-uint64", "number:same-value-different-scale-pair", "number:different-value-pair",
+		"datetime-pair:same-instant-different-zone", "datetime-pair:same-rendering",
+		"json:duplicate-key", "json:case-variant-keys", "json:depth-3", "json:nested-object-in-array", "json:nested-array-in-object", "json:spaced-serialisation",
+		"json-pair:equal-rendering", "json-pair:different-rendering"} {
+		need(x)
+	}
+	for _, l := range allLeaves {
+		need("json:leaf-used:" + l.kind)
+		if l.kind != "string-lone-surrogate" {
+			need("json:leaf-survived:" + l.kind)
+		}
+	}
+	for _, k := range allKeys {
+		need("json:key-used:" + k.kind)
+		if k.kind != "default" && k.kind != "lone-surrogate" {
+			need("json:key-survived:" + k.kind)
+		}
+	}
+	for _, k := range []string{"numbers", "number_pairs", "datetime_iso_cases", "datetime_env_cases", "date_cases", "time_cases", "json_docs", "json_pairs"} {
+		if r.Counters[k] == 0 {
+			f = append(f, "no cases of kind "+k)
+		}
+	}
+	sort.Strings(f)
+	return f
+}
+
+func init() {
+	mc.Register(&mc.Check{
+		ID:    "C13",
+		Level: "exploration",
+		Rule: "bounded exhaustive enumeration of value grids on the real conversion code: (1) decimals coefficient x exponent (every integer coefficient |c| <= 1100 plus 2^63-1, 2^63, 2^64, 20- and 30-digit ones, both signs; exponent -30..30 quick, -400..400 thorough), render -> ToXNumber and the contact-field parser; " +
+			"(2) instants = calendar grid (years incl. 1, 99, 999, 1000, LMT era, now-1..now+1, 2068/2069, 9999 x months x days x hours x minutes x seconds x nanos) taken in each value zone, plus 12 instants around EVERY offset transition 1800-2040 of every zone (all DST gaps and folds, LMT changes, the day Apia skipped), each x every environment = 3 date formats x 4 time formats x zone, in ISO form and in the environment format; " +
+			"(3) every calendar date of the year grid and a time-of-day grid x every environment x {ISO, environment format}; (4) every JSON document of depth <= 2 and width <= 2 over the full leaf and key alphabets in two serialisations, and every document of depth 3 (width <= 2) over a reduced alphabet, through parse_json -> json; (5) pairs for '=': number grid squared, datetime set squared, small JSON documents squared. " +
+			"A case is distinct by construction (no tuple is enumerated twice; ISO-form cases are counted once per instant x value zone x environment zone, not per date/time format, since the ISO text does not depend on the formats) and non-trivial when the round trip was actually executed on a non-empty rendering and compared (out-of-domain instants are not counted).",
+		Assumptions: []string{
+			"value grids, zones {UTC, America/New_York, Asia/Kathmandu, Africa/Kigali, Pacific/Apia, America/Sao_Paulo (+Australia/Lord_Howe thorough)} and the JSON leaf/key alphabets are representative; depth-3 JSON documents use a reduced alphabet",
+			"environments are built with the default locale (en): am/pm markers of other locales are not in the statement's quantifier and not explored",
+			"the host's IANA timezone database is used by both goflow and the oracle; decimal exponents are kept within +-400 (1e2147483648 is outside the decimal type)",
+			"the clock consulted by goflow's date parser is fixed at 2026-06-15 (dates.SetNowFunc)",
+			"JSON equivalence: last duplicate key wins, numbers compared as decimals, lone surrogate escapes read as U+FFFD",
+		},
+		Run:    run,
+		Replay: replayFn,
+		Guards: guards,
+		Budget: map[string]time.Duration{"quick": 4 * time.Minute, "thorough": 25 * time.Minute},
+	})
+}
